@@ -139,7 +139,9 @@ theorem pixel_on_ray (tth eta L y_size z_size yc zc : ℝ) (R : Matrix (Fin 3) (
 
 /-- `detect_tilt` is the product Rx·Ry·Rz of the elementary rotations. -/
 theorem detect_tilt_eq (a b c : ℝ) : Tools.detect_tilt a b c = Spec.Rx a * (Spec.Ry b * Spec.Rz c) := by
-  rfl
+  ext i j; fin_cases i <;> fin_cases j <;>
+    simp [Tools.detect_tilt, Tools.form_omega_mat, Spec.Rx, Spec.Ry, Spec.Rz, Matrix.mul_apply, Fin.sum_univ_three] <;>
+    first | done | ring
 
 /-- The tilt matrices built by `tools.detect_tilt` are proper rotations. -/
 theorem detect_tilt_isRot (a b c : ℝ) : Spec.IsRot (Tools.detect_tilt a b c) := by
@@ -192,7 +194,8 @@ example :
     constructor <;> linarith [Real.two_le_pi]
   have : (∑ i, R i 0 * ![Real.cos tth, -Real.sin tth * Real.sin eta, Real.sin tth * Real.cos eta] i)
       = Real.cos 0.3 * (1 / 2) := by
-    simp [R, tth, eta, Tools.detect_tilt, Fin.sum_univ_three]
+    rw [show R = Spec.Rx 0 * (Spec.Ry 0 * Spec.Rz 0.3) from detect_tilt_eq 0 0 0.3]
+    simp [tth, eta, Spec.Rx, Spec.Ry, Spec.Rz, Matrix.mul_apply, Fin.sum_univ_three]
   rw [this]
   positivity
 
